@@ -68,7 +68,7 @@ Definition errors_of (f : file) : list (option perror) :=
   f_error f :: flat_map (fun g => g_error g :: map r_error (g_rules g)) (f_groups f).
 
 Definition refutes (d : node) : Prop :=
-  let s := parse_strict pl0 yes yes yes yes false [] [(d, 0)] None in
+  let s := parse_strict pl0 yes yes yes yes (fun _ => true) false [] [(d, 0)] None in
   forallb (fun e => match e with None => true | Some _ => false end) (errors_of s) = true /\
   List.length (all_rules (f_groups s)) <> 0 /\
   exists f', parse_relaxed pl0 yes yes yes [] [(d, 0)] None = Some f' /\ all_rules (f_groups f') = [].
@@ -80,7 +80,7 @@ Print Assumptions C19_relaxed_eq_strict_refuted_tag_kind.
 (** Regression of the repaired alias-key defect: strict mode now reports an error for the witness. *)
 Theorem C19_alias_key_now_rejected :
   existsb (fun e => match e with Some _ => true | None => false end)
-          (errors_of (parse_strict pl0 yes yes yes yes false [] [(witness_alias_key, 0)] None)) = true.
+          (errors_of (parse_strict pl0 yes yes yes yes (fun _ => true) false [] [(witness_alias_key, 0)] None)) = true.
 Proof. vm_compute. reflexivity. Qed.
 Print Assumptions C19_alias_key_now_rejected.
 
@@ -148,7 +148,7 @@ Example C19_nonvacuous :
   (exists f, parse_relaxed pl0 yes yes yes [] [(ex_k8s, 0)] None = Some f /\
              map (fun r => match r_body r with Recording n e _ => (y_value n, y_value e, r_first r, r_last r) | _ => ("", "", 0, 0) end)
                  (all_rules (f_groups f)) = [("a:b", "up", 8, 9)]) /\
-  (let s := parse_strict pl0 yes yes yes yes false [] [(ex_strict, 0)] None in
+  (let s := parse_strict pl0 yes yes yes yes (fun _ => true) false [] [(ex_strict, 0)] None in
    forallb (fun e => match e with None => true | Some _ => false end) (errors_of s) = true /\
    List.length (all_rules (f_groups s)) = 1 /\
    exists f, parse_relaxed pl0 yes yes yes [] [(ex_strict, 0)] None = Some f /\ all_rules (f_groups f) = all_rules (f_groups s)).
